@@ -9,7 +9,7 @@ Physical dump grammar (no spaces):
   array    := `A(` type `;` len `;` offset `;` nulls `;` bufs `;` array* `)`
   nulls    := `-` | hex | hex `:` declaredNullCount          (without `:n` the count is computed, as `NullBuffer::new` does)
   bufs     := `-` | buf (`|` buf)*        buf := hex | `e` (empty buffer)
-  type     := `n` | `b` | `p`W | `t` | `T` | `y` | `Y` | `x`N
+  type     := `n` | `b` | `p`W | `t` | `T` | `y` | `Y` | `x`N | `v` (Utf8View) | `w` (BinaryView) | `M`nb`<s<!K,?V>>` (Map = List<Struct>)
             | (`l`|`L`) nb `<` type `>` | `f`N nb `<` type `>` | `s<` (nb type),* `>`
             | `d`KW(`s`|`u`) `<` type `>` | `r`RW `<` type `>` | (`D`|`S`) `<` (id `:` type),* `>`
   nb       := `?` (nullable) | `!` (not nullable)
@@ -54,8 +54,11 @@ partial def pType : P DType := fun cs =>
   | 'y' :: r => some (.binary false, r)
   | 'Y' :: r => some (.binary true, r)
   | 'x' :: r => (pNat r).map (fun (w, r) => (.fsb w, r))
+  | 'v' :: r => some (.view true, r)
+  | 'w' :: r => some (.view false, r)
   | 'l' :: r => pListLike false r
   | 'L' :: r => pListLike true r
+  | 'M' :: r => pListLike false r       -- Map: physically List<Struct<key, value>>
   | 'f' :: r => do
     let (n, r) ← pNat r
     let (nb, r) ← pNb r
@@ -217,6 +220,27 @@ def handle (toks : List String) : String :=
       else match typedModel kind d with
         | .ok => s!"ok wf={showBool (wellFormedB (buildTree d))}"
         | _ => "REJ"
+    | none => "bad-op"
+  -- ListView / LargeListView of Int8: `ArrayData::try_new` (validate_offsets_and_sizes) and
+  -- `GenericListViewArray::try_new`; spec = model: every visible (offset, size) pair is
+  -- non-negative and `offset + size ≤ child length`
+  | ["lview", w, len, off, ob, sb, cl] =>
+    match w.toNat?, len.toNat?, off.toNat?, hexE ob, hexE sb, cl.toNat? with
+    | some w, some len, some off, some ob, some sb, some cl =>
+      let pairOk (i : Nat) : Bool :=
+        match readInt ob w true i, readInt sb w true i with
+        | some o, some s => decide (0 ≤ o ∧ 0 ≤ s ∧ o + s ≤ (cl : Int))
+        | _, _ => false
+      let t := if (len + off) * w ≤ ob.length ∧ (len + off) * w ≤ sb.length ∧ allBelow len (fun i => pairOk (off + i))
+               then "ok" else "ERR"
+      let n := ob.length / w
+      let y := if sb.length / w = n ∧ allBelow n pairOk then "ok" else "REJ"
+      s!"t={t} y={y}"
+    | _, _, _, _, _, _ => "bad-op"
+  -- C data interface round trip of an array the model accepts
+  | ["ffi", a] =>
+    match parseArray a with
+    | some d => if tryNewRec d = .ok then "ok" else "ERR"
     | none => "bad-op"
   -- `OffsetBuffer::new`
   | ["obuf", w, h] =>
